@@ -10,6 +10,7 @@ import Driver.Util
 import JanetModel.Peg.Entry
 import JanetModel.Peg.Validate
 import JanetModel.Peg.Compile
+import JanetModel.Peg.BackrefLemmas
 open Driver JanetModel.Peg JanetModel.Peg.Spec
 
 def hexOrEmpty (h : String) : Option (List Nat) := if h == "-" then some [] else bytesOfHex h
@@ -242,6 +243,16 @@ def step (_ : Unit) (toks : List String) : Unit × String :=
       | some o =>
         pure (s!"B {if o.hasBackref then 1 else 0} " ++ ",".intercalate (o.code.map toString) ++ s!" {o.consts.length}"
               ++ String.join (o.consts.map (fun v => "," ++ showConst v)) ++ s!" E{o.entry}")
+    ((), r.getD "bad-op")
+  | ["notag", bc, consts] =>
+    -- certificate that `has_backref` is unobservable for this bytecode (Props.C12.compiled_backref_flag_certified): the set of
+    -- addresses reachable from the entry, checked by `closedNoTag`
+    let r : Option String := do
+      let words ← (bc.splitOn ",").mapM String.toNat?
+      let cs ← pValList consts
+      let P : Program := { bytecode := words.toArray, constants := cs.toArray }
+      let S := Backref.reach (decode P) (4 * words.length + 16) [0] []
+      pure (if S.contains 0 && Backref.closedNoTag (decode P) S then s!"T1 {S.length}" else "T0")
     ((), r.getD "bad-op")
   | ["validate", bc, consts, g] =>
     -- translation validation of real peg/compile output against the source grammar
